@@ -273,9 +273,35 @@ def rule_r3(repo):
             elif wired and calls:
                 rr.fail('TemplateData.wire:idempotent', wire.where, 'wire() on already wired data walks the template again (%d times): a second rendering or query would '
                         'append the node tree once more' % len(calls))
-            elif not wired and (len(calls) != 2 or any(c is not True for c in calls) or r.locals['self'].fields.get('_is_wired') is not True):
-                rr.fail('TemplateData.wire:flag', wire.where, 'wire() on fresh data: %d subset walks, flag %r during the walk, %r afterwards (expected the flag set before the first walk)' % (
-                    len(calls), calls[:1], r.locals['self'].fields.get('_is_wired')))
+            elif not wired and (len(calls) != 2 or r.locals['self'].fields.get('_is_wired') is not True):
+                rr.fail('TemplateData.wire:flag', wire.where, 'wire() on fresh data: %d subset walks, flag %r afterwards (expected one walk per subset and the flag set)' % (
+                    len(calls), r.locals['self'].fields.get('_is_wired')))
+    # a wire() that fails (a template the wirer cannot follow) must not leave the data marked as wired: the next rendering or query of
+    # the same message would silently work on a half-built tree instead of reporting the same error
+
+    class WF(W):
+        def on_call(self2, text, callee, args, kwargs, node, frame):
+            if text == 'self.wire_members':
+                n = len([e for e in self2.path.events if e[0] == 'wire_members'])
+                self2.event('wire_members', n)
+                if n == 1:
+                    from sa.patheval import Raise
+                    raise Raise('PyBufrKitError', node, self2.where(node, frame))
+                return None
+            return W.on_call(self2, text, callee, args, kwargs, node, frame)
+    it = WF(repo, 'TemplateData')
+    res = it.run_function(wire, lambda: {'self': Obj('TemplateData', {
+        '_is_wired': False, 'is_compressed': False, 'n_subsets': 2, 'template': Obj('BufrTemplate', {'members': []}),
+        'decoded_nodes_all_subsets': [[], []], 'decoded_descriptors_all_subsets': [[], []], 'decoded_values_all_subsets': [[], []],
+        'bitmap_links_all_subsets': [{}, {}], 'index_to_node': {}})}, self_class='TemplateData')
+    rr.instance('TemplateData.wire() failing in the second subset')
+    for r in res:
+        flag = r.locals['self'].fields.get('_is_wired') if r.locals and 'self' in r.locals else None
+        if r.ok:
+            rr.fail('TemplateData.wire:failure-swallowed', wire.where, 'wire() returns normally although wiring the second subset failed')
+        elif flag is True:
+            rr.fail('TemplateData.wire:failed-but-marked', wire.where, 'wire() fails with %s while wiring the second subset and leaves _is_wired = True: the next wire() of the '
+                    'same message returns at once, and renderings and queries then run on a half-built tree instead of meeting the same error' % r.exc.cls)
     init = repo.own_method('TemplateData', '__init__')
     if 'self._is_wired = False' not in norm(init.node):
         rr.fail('TemplateData.__init__:is_wired', init.where, '_is_wired is not initialised to False')
